@@ -6,6 +6,7 @@ model, one-call refinement.
 -/
 namespace ImathVerif.Rand48
 open ImathVerif.Rand48.Spec
+set_option exponentiation.threshold 2000
 
 /-- `a <<< i ||| b = a * 2^i + b` when `b < 2^i` -/
 theorem shl_or (a b i : Nat) (h : b < 2 ^ i) : (a <<< i) ||| b = a * 2 ^ i + b := by
@@ -170,15 +171,20 @@ theorem r48Nextb_eq (s : St) (h : s.wf) :
   refine ⟨?_, trivial⟩
   rcases Nat.mod_two_eq_zero_or_one (nrandOut (lcg (pack s))) with hr | hr <;> rw [hr] <;> decide
 
-/-- one call of the model = one call of the specification, under the abstraction `pack` -/
+/-- one call of the model = one call of the specification, under the abstraction `pack`.
+(`w` is destructured first: a definitional-equality check between `w.stat` and a
+projection of `step ..` would make the kernel compare `r48Init seed` with `w.user`
+by unfolding `^^^`/`&&&` on open terms.) -/
 theorem step_refines (w : World) (hu : w.user.wf) (hs : w.stat.wf) (op : Op) :
     (step w op).1 = (sstep (absW w) op).1 ∧ absW (step w op).2 = (sstep (absW w) op).2 ∧
     (step w op).2.user.wf ∧ (step w op).2.stat.wf := by
-  obtain ⟨n1, n2, n3⟩ := nrand48_eq w.user hu
-  obtain ⟨e1, e2, e3⟩ := erand48_eq w.user hu
-  obtain ⟨m1, m2, m3⟩ := nrand48_eq w.stat hs
-  obtain ⟨f1, f2, f3⟩ := erand48_eq w.stat hs
-  obtain ⟨b1, b2⟩ := r48Nextb_eq w.user hu
+  obtain ⟨u, st⟩ := w
+  simp only at hu hs
+  obtain ⟨n1, n2, n3⟩ := nrand48_eq u hu
+  obtain ⟨e1, e2, e3⟩ := erand48_eq u hu
+  obtain ⟨m1, m2, m3⟩ := nrand48_eq st hs
+  obtain ⟨f1, f2, f3⟩ := erand48_eq st hs
+  obtain ⟨b1, b2⟩ := r48Nextb_eq u hu
   cases op with
   | nrand48 => simp only [step, sstep, absW, n1, n2]; exact ⟨trivial, trivial, n3, hs⟩
   | erand48 => simp only [step, sstep, absW, e1, e2]; exact ⟨trivial, trivial, e3, hs⟩
@@ -188,7 +194,7 @@ theorem step_refines (w : World) (hu : w.user.wf) (hs : w.stat.wf) (op : Op) :
     simp only [step, sstep, absW, (srand_pack seed).1]; exact ⟨trivial, trivial, hu, (srand_pack seed).2⟩
   | r48init seed =>
     simp only [step, sstep, absW, (r48Init_pack seed).1]; exact ⟨trivial, trivial, (r48Init_pack seed).2, hs⟩
-  | r48nextb => simp only [step, sstep, absW, b1, b2, n2]; exact ⟨trivial, n3, hs⟩
+  | r48nextb => simp only [step, sstep, absW, b1, b2, n2]; exact ⟨rfl, trivial, n3, hs⟩
   | r48nexti => simp only [step, sstep, absW, r48Nexti, n1, n2]; exact ⟨trivial, trivial, n3, hs⟩
   | r48nextf => simp only [step, sstep, absW, r48Nextf, e1, e2]; exact ⟨trivial, trivial, e3, hs⟩
 
